@@ -22,7 +22,7 @@ func init() {
 	property("C11",
 		"Static conformance of AutoVar handling: (a) an AutoVar operand is recognised as an identifier configured in autovar_commands, parsed with the ordinary command parser, and its result var is the configured name or the argument at the configured position (bounds-checked), taken verbatim; (b) the parsed command is attached as the preamble of exactly the leaf whose operand is that result var (type VAR), and for switch it is placed immediately before the switch statement; (c) the leaf renders its preamble with the ordinary command renderer exactly once, before the comparison, iff present; each leaf owns one chunk and loops re-enter at the condition's entry chunk (C02.e, C01.e). The command is attached exactly when its result var is the operand (C11.b); the shipped command_config.json keys are the JSON names of the decoded structs (C11.d).",
 		[]string{"scheme argument of DESIGN §4 C11"},
-		"C11.a", "C11.b", "C11.c", "C02.e", "C02.i", "C06.c", "C10.e", "C01.e", "C02.d", "C01.h", "C11.d", "C10.g", "C18.m", "C10.f")
+		"C11.a", "C11.b", "C11.c", "C02.e", "C02.i", "C06.c", "C10.e", "C01.e", "C02.d", "C01.h", "C11.d", "C10.g", "C18.m", "C10.f", "C18.n")
 
 	register(&Rule{ID: "C09.a", Doc: "terminator table and append-iff-missing", Floor: 5, Run: c09a})
 	register(&Rule{ID: "C09.b", Doc: "recorded / returned text is terminator-formatted with its own string type", Floor: 6, Run: c09b})
